@@ -142,7 +142,7 @@ func serializeAttrsSep(pc *PrintCtx, kvps Attrs, leadingSep bool) (err error) { 
 
 	if pc.dedupeAttrs {
 		verifEvent("sort.begin", uintptr(unsafe.Pointer(unsafe.SliceData(kvps))), uintptr(len(kvps)))
-		slices.SortFunc(kvps, func(a, b Attr) int {
+		slices.SortStableFunc(kvps, func(a, b Attr) int { // stable: the last of several equal keys must stay last
 			if a == nil {
 				if b == nil {
 					return 0
